@@ -23,16 +23,40 @@ static inline BA *DMap_slot(DMap *m, int d) {
   if (!m->has[d]) { m->has[d] = true; m->v[d] = ba_empty(); }
   return &m->v[d];
 }
-static inline bool DMap_contains(const DMap *m, const BA *key) {
-  MODEL_LIMIT(m->parsed, "contains() on a map built with operator[]");
-  return m->src_nonempty && __CPROVER_uninterpreted_dmsg_has(m->src, ba_id(*key));
+/* ---- lookups.  On a parsed message: directive `key` is present or not (dmsg_has) and has a possibly empty value; value(key) and
+   value(key, default), contains, count, const operator[], find / constFind + iterator all read these same two facts.  On a map built
+   with operator[] the key must be one of the directive names (dmap_index). */
+static inline int dmap_index(BA key) {
+  if (ba_eq(key, BA_LIT("authzid"))) return DIR_authzid;   if (ba_eq(key, BA_LIT("charset"))) return DIR_charset;     if (ba_eq(key, BA_LIT("cipher"))) return DIR_cipher;
+  if (ba_eq(key, BA_LIT("cnonce"))) return DIR_cnonce;     if (ba_eq(key, BA_LIT("digest-uri"))) return DIR_digest_uri; if (ba_eq(key, BA_LIT("maxbuf"))) return DIR_maxbuf;
+  if (ba_eq(key, BA_LIT("nc"))) return DIR_nc;             if (ba_eq(key, BA_LIT("nonce"))) return DIR_nonce;         if (ba_eq(key, BA_LIT("qop"))) return DIR_qop;
+  if (ba_eq(key, BA_LIT("realm"))) return DIR_realm;       if (ba_eq(key, BA_LIT("response"))) return DIR_response;   if (ba_eq(key, BA_LIT("username"))) return DIR_username;
+  return -1;
 }
-static inline void DMap_value2(BA *r, const DMap *m, const BA *key, const BA *dflt) {
-  MODEL_LIMIT(m->parsed, "value() on a map built with operator[]");
-  int k = ba_id(*key);
-  if (m->src_nonempty && __CPROVER_uninterpreted_dmsg_has(m->src, k)) *r = __CPROVER_uninterpreted_dmsg_attr_empty(m->src, k) ? ba_empty() : ba_atom(__CPROVER_uninterpreted_dmsg_attr(m->src, k));
-  else *r = *dflt;
+/* QMap<QByteArray,QByteArray>::const_iterator / iterator as produced by find / constFind / end: past-the-end, or at one entry */
+typedef struct DMapIt { bool at_end; BA k; BA v; } DMapIt;
+static inline void DMap_find(DMapIt *r, const DMap *m, const BA *key) {
+  r->k = *key; r->v = ba_empty();
+  if (m->parsed) {
+    int k = ba_id(*key);
+    r->at_end = !(m->src_nonempty && __CPROVER_uninterpreted_dmsg_has(m->src, k));
+    if (!r->at_end && !__CPROVER_uninterpreted_dmsg_attr_empty(m->src, k)) r->v = ba_atom(__CPROVER_uninterpreted_dmsg_attr(m->src, k));
+    return;
+  }
+  int d = dmap_index(*key);
+  r->at_end = !(d >= 0 && m->has[d]);
+  if (!r->at_end) r->v = m->v[d];
 }
+static inline void DMap_end(DMapIt *r, const DMap *m) { r->at_end = true; r->k = ba_empty(); r->v = ba_empty(); }
+/* iterators of the same map: equal iff both past-the-end or at the same key */
+static inline bool DMapIt_eq(const DMapIt *a, const DMapIt *b) { return a->at_end ? b->at_end : (!b->at_end && ba_eq(a->k, b->k)); }
+static inline bool DMapIt_ne(const DMapIt *a, const DMapIt *b) { return !DMapIt_eq(a, b); }
+/* *it, it.value(), it->..., it.key(): dereferencing the past-the-end iterator is undefined behaviour */
+static inline const BA *DMapIt_value(const DMapIt *it) { __CPROVER_assert(!it->at_end, "[safety.map_iterator_dereferenced_only_when_it_is_not_end]"); return &it->v; }
+static inline const BA *DMapIt_key(const DMapIt *it) { __CPROVER_assert(!it->at_end, "[safety.map_iterator_dereferenced_only_when_it_is_not_end]"); return &it->k; }
+static inline bool DMap_contains(const DMap *m, const BA *key) { DMapIt it; DMap_find(&it, m, key); return !it.at_end; }
+static inline int DMap_count(const DMap *m, const BA *key) { return DMap_contains(m, key) ? 1 : 0; }
+static inline void DMap_value2(BA *r, const DMap *m, const BA *key, const BA *dflt) { DMapIt it; DMap_find(&it, m, key); *r = it.at_end ? *dflt : it.v; }
 static inline void DMap_value(BA *r, const DMap *m, const BA *key) { BA e = ba_empty(); DMap_value2(r, m, key, &e); }
 /* the two grammar functions of QXmppSasl.cpp, used through contracts */
 void QXmppSaslDigestMd5_parseMessage(DMap *_ret, const BA *ba)
